@@ -1,6 +1,6 @@
 SPECIFICATION Spec
 CONSTANTS
-  MaxWrites = 4
+  MaxWrites = 6
   MaxFaults = 2
   Rollback = TRUE
   RollbackRobust = TRUE
